@@ -8,6 +8,7 @@ import SST.Drv.Kaitai
 import SST.Drv.Wal
 import SST.Drv.Handles
 import SST.Drv.Conc
+import SST.Drv.FS
 open SST SST.Drv
 
 def handle (line : String) : String :=
@@ -33,8 +34,12 @@ def handle (line : String) : String :=
     | "kaitai.enum" => kaitaiEnumCmd a
     | "wal.run" => walRun a
     | "wal.cuts" => walCuts a
+    | "wal.events" => walEventsCmd a
     | "handles.run" => handlesRun a
     | "handles.reader" => handlesReader a
+    | "fs.recover" => Fs.fsRecover a
+    | "fs.recimages" => Fs.fsRecImages a
+    | "fs.session" => Fs.fsSession a
     | "ping" => "pong"
     | _ => "bad-op"
 
